@@ -24,6 +24,7 @@ type PreCall struct {
 }
 
 type Finding struct {
+	Candidate bool      `json:"candidate,omitempty"` // inputs from the real rounding-error model: a violation only if the native replay fails
 	Pre     []PreCall   `json:"pre,omitempty"`
 	Harness string      `json:"harness"`
 	Pkg     string      `json:"pkg"`
@@ -56,6 +57,7 @@ type ItemResult struct {
 	SampleObl    string
 	IfConverted  int
 	UFCongruence int
+	Candidates    int  // FP obligations answered with a real-model candidate (decided by the native replay)
 	Truncated     bool // exploration stopped after 24 counterexamples
 	Summarized    int // calls of scalar-pure leaf functions evaluated by a merged summary (summarize.go)
 	CollisionOnly int // satisfiable only through collisions of uninterpreted functions: not counterexamples
@@ -84,6 +86,8 @@ type Exec struct {
 	harness *ssa.Function
 	shape   []int
 	violTotal int
+	fpMemo    map[*Term]bool
+	candidate bool
 	pre       []PreCall
 	preFns    map[*ssa.Function]bool
 	violSeen map[string]int
@@ -460,8 +464,38 @@ func (ex *Exec) feasible(st *State, c *Term) bool {
 	if v, ok := ex.inPC(st, c); ok {
 		return v
 	}
+	if ex.queryHasFP(st, c) {
+		// branch conditions over floating point: a short bit-precise attempt, no fall-back solvers; unknown keeps
+		// the branch (sound: more paths, never fewer)
+		ex.sol.skipFallback, ex.sol.softTimeoutMs = true, 3000
+		defer func() { ex.sol.skipFallback, ex.sol.softTimeoutMs = false, 0 }()
+	}
 	res, _ := ex.sol.Check(ex.ctx, append(append([]*Term(nil), st.pc...), c), false)
 	return res != "unsat"
+}
+
+// queryHasFP: does the query "path condition and c" contain floating-point terms? (memoised per term)
+func (ex *Exec) queryHasFP(st *State, c *Term) bool {
+	if ex.fpMemo == nil {
+		ex.fpMemo = map[*Term]bool{}
+	}
+	has := func(t *Term) bool {
+		if v, ok := ex.fpMemo[t]; ok {
+			return v
+		}
+		v := hasFP(t, map[*Term]bool{})
+		ex.fpMemo[t] = v
+		return v
+	}
+	if has(c) {
+		return true
+	}
+	for _, p := range st.pc {
+		if has(p) {
+			return true
+		}
+	}
+	return false
 }
 
 func (ex *Exec) modelFor(st *State, extra *Term) (string, []ReplayVal) {
@@ -593,7 +627,7 @@ func (ex *Exec) record(st *State, kind, label, knownID string, vals []ReplayVal)
 	if ex.spec != nil {
 		panic(specAbort{})
 	}
-	f := Finding{Pre: ex.pre, Harness: ex.harness.Name(), Pkg: ex.res.Pkg, Shape: ex.shape, Kind: kind, Label: label, Pos: ex.posOf(st), KnownID: knownID, Values: vals, MapDesc: ex.cfg.MapDesc}
+	f := Finding{Candidate: ex.candidate, Pre: ex.pre, Harness: ex.harness.Name(), Pkg: ex.res.Pkg, Shape: ex.shape, Kind: kind, Label: label, Pos: ex.posOf(st), KnownID: knownID, Values: vals, MapDesc: ex.cfg.MapDesc}
 	key := kind + "|" + label + "|" + knownID
 	ex.violSeen[key]++
 	if kind != "known" {
@@ -626,7 +660,7 @@ func (ex *Exec) oblige(st *State, cond *Term, kind, label, knownID string) {
 	if ex.spec != nil {
 		panic(specAbort{})
 	}
-	fp := hasFP(cond, map[*Term]bool{})
+	fp := ex.queryHasFP(st, cond)
 	if fp {
 		ex.sol.skipFallback = true
 	}
@@ -634,10 +668,59 @@ func (ex *Exec) oblige(st *State, cond *Term, kind, label, knownID string) {
 	ex.sol.skipFallback = false
 	if fp && res != "sat" && res != "unsat" {
 		// bit-precise query timed out: try the real-arithmetic rounding-error model (a proof under that model only)
-		if relaxedUnsat(ex.ctx, st.pc, cond) {
+		var nd []*Term
+		for _, nv := range st.nondets {
+			nd = append(nd, nv.T)
+		}
+		rres, rmodel := relaxedCheck(ex.ctx, st.pc, cond, nd, false)
+		switch {
+		case rres == "unsat":
 			res = "unsat"
 			ex.res.Relaxed++
-		} else {
+		case rres == "sat":
+			// candidate counterexamples from the real model (first from the model with a quarter of the round-off
+			// bound, then from the full one): reported only if the native replay reproduces one of them
+			models := []map[string]uint64{rmodel}
+			if r2, m2 := relaxedCheck(ex.ctx, st.pc, cond, nd, true); r2 == "sat" {
+				models = []map[string]uint64{m2, rmodel}
+			}
+			recorded := false
+			for _, mdl := range models {
+				cv := make([]ReplayVal, len(st.nondets))
+				complete := true
+				for i, nv := range st.nondets {
+					bits := nv.T.S.W
+					if nv.T.S.K == KBool {
+						bits = 1
+					}
+					v, ok := mdl[nv.T.Name]
+					if !ok {
+						complete = false
+					}
+					if bits < 64 {
+						v &= (uint64(1) << uint(bits)) - 1
+					}
+					cv[i] = ReplayVal{Name: nv.Name, Bits: bits, Val: v}
+				}
+				if complete {
+					ex.candidate = true
+					k := kind
+					if knownID != "" && ex.cfg.Known[knownID] {
+						k = "known"
+					}
+					ex.record(st, k, label, knownID, cv)
+					ex.candidate = false
+					recorded = true
+				}
+			}
+			if recorded {
+				ex.res.Candidates++
+				// the path continues under the assumption that the obligation holds
+				st.pc = append(st.pc, cond)
+				return
+			}
+			res, vals = ex.modelFor(st, ex.ctx.Not(cond))
+		default:
 			res, vals = ex.modelFor(st, ex.ctx.Not(cond))
 		}
 	}
